@@ -42,10 +42,10 @@ def _tree(rng):
         t = {}
         p = ""
         for i in range(rng.randint(3, 5)):
-            p = (p + "/" if p else "") + world.gen_name(rng, rng.choice(["plain", "uni", "space", "punct"]), ext=False)
+            p = (p + "/" if p else "") + "d-" + world.gen_name(rng, rng.choice(["plain", "uni", "space", "punct"]), ext=False)
             t[p] = None
             if rng.random() < 0.6:
-                t[p + "/" + world.gen_name(rng, "plain")] = world.gen_bytes(rng)
+                t[p + "/f-" + world.gen_name(rng, "plain")] = world.gen_bytes(rng)
     elif shape == "dirsonly":
         t = world.gen_tree(rng, max_files=0, max_dirs=6)
     elif shape == "empty":
